@@ -35,7 +35,7 @@ func simProcessSetup() {
 	runtime.GOMAXPROCS(1)
 	debug.SetMaxStack(256 << 20)
 	debug.SetGCPercent(200)
-	simrt.DefaultHeapLimit = 3 << 30
+	simrt.DefaultHeapLimit = 2 << 30
 }
 
 func hasKey(vs []Violation, key string) bool {
@@ -152,10 +152,19 @@ func workerMain(args []string) int {
 				rt := ReplayTape(shr)
 				r := executeRun(c, *phase, i, rt, *world, scratchStats, true)
 				viol := v
+				reproduced := false
 				for _, rv := range r.Violations {
 					if rv.Key == v.Key {
 						viol = rv
+						reproduced = true
 					}
+				}
+				if !reproduced {
+					// the violation does not show again in this (by now warm) process: it depends on
+					// process state such as a cold start. Keep the original run; the driver replays
+					// it in a fresh process (with its history if need be).
+					wo.Violations = append(wo.Violations, WorkerViolation{ChunkFrom: *from, Index: i, RunSeed: rs, Violation: v, Tape: full, TapeFull: len(full), Shrunk: execs, EventHash: res.EventHash, Desc: res.Desc})
+					continue
 				}
 				wo.Violations = append(wo.Violations, WorkerViolation{ChunkFrom: *from, Index: i, RunSeed: rs, Violation: viol, Tape: rt.Rec, TapeFull: len(full), Shrunk: execs, EventHash: r.EventHash, Desc: r.Desc})
 			}
